@@ -170,7 +170,6 @@ macro_rules! c14_trim_matches_str {
 }
 c14_trim_matches_str! {c14_trim_start_matches_str, trim_start_matches, "C14.trim_start_matches.eq_string_trim_start_matches"}
 c14_trim_matches_str! {c14_trim_end_matches_str, trim_end_matches, "C14.trim_end_matches.eq_string_trim_end_matches"}
-c14_trim_matches_str! {c14_trim_matches_str, trim_matches, "C14.trim_matches.eq_string_trim_matches"}
 
 macro_rules! c14_trim_matches_char {
     ($name:ident, $m:ident, $o:literal) => {
@@ -192,7 +191,62 @@ macro_rules! c14_trim_matches_char {
 }
 c14_trim_matches_char! {c14_trim_start_matches_char, trim_start_matches, "C14.trim_start_matches.eq_string_trim_start_matches"}
 c14_trim_matches_char! {c14_trim_end_matches_char, trim_end_matches, "C14.trim_end_matches.eq_string_trim_end_matches"}
-c14_trim_matches_char! {c14_trim_matches_char, trim_matches, "C14.trim_matches.eq_string_trim_matches"}
+
+macro_rules! c14_trim_matches_both {
+    ($name:ident, $h:literal) => {
+        harness! {
+            /// kind=bounded tier=quick bound="valid UTF-8 remainder<=3 bytes; two-sided trim_matches with a &str pattern<=2 bytes (empty included) or a char pattern (any char); thorough twin: <=4 bytes"
+            #[kani::unwind(8)]
+            #[kani::stub(konst_kernel::string::non_char_boundary_panic, crate::hlib::stub_non_char_boundary_panic)]
+            fn $name(s) {
+                let hs = BStr::<$h>::any(s);
+                let h = hs.as_str();
+                let p = mk(s, h);
+                if s.bool() {
+                    let ps = BStr::<2>::any(s);
+                    let pat = ps.as_str();
+                    chk!(s, rem_eq(p.trim_matches(pat).remainder(), string::trim_matches(h, pat)), "C14.trim_matches.eq_string_trim_matches");
+                    cov!(s, pat.len() == 1 && string::trim_matches(h, pat).len() == 1 && h.len() == 3, "C14.cover.trim_matches_str_both_ends");
+                } else {
+                    let c = s.char();
+                    chk!(s, rem_eq(p.trim_matches(c).remainder(), string::trim_matches(h, c)), "C14.trim_matches.eq_string_trim_matches");
+                    cov!(s, c.len_utf8() == 1 && string::trim_matches(h, c).len() == 1 && h.len() == 3, "C14.cover.trim_matches_char_both_ends");
+                }
+            }
+        }
+    };
+}
+c14_trim_matches_both! {c14_trim_matches_both_ends, 3}
+
+harness! {
+    /// kind=bounded tier=thorough bound="valid UTF-8 remainder<=4 bytes; two-sided trim_matches with a &str pattern<=2 bytes (empty included)"
+    #[kani::unwind(8)]
+    #[kani::stub(konst_kernel::string::non_char_boundary_panic, crate::hlib::stub_non_char_boundary_panic)]
+    fn c14_trim_matches_both_ends_str_big(s) {
+        let hs = BStr::<4>::any(s);
+        let h = hs.as_str();
+        let p = mk(s, h);
+        let ps = BStr::<2>::any(s);
+        let pat = ps.as_str();
+        chk!(s, rem_eq(p.trim_matches(pat).remainder(), string::trim_matches(h, pat)), "C14.trim_matches.eq_string_trim_matches");
+        cov!(s, pat.len() == 1 && string::trim_matches(h, pat).len() == 1 && h.len() == 4, "C14.cover.trim_matches_str_both_ends_big");
+        cov!(s, pat.len() == 2 && string::trim_matches(h, pat).len() == 0 && h.len() == 4, "C14.cover.trim_matches_str_two_reps_big");
+    }
+}
+
+harness! {
+    /// kind=bounded tier=thorough bound="valid UTF-8 remainder<=4 bytes; two-sided trim_matches with a char pattern (any char)"
+    #[kani::unwind(8)]
+    #[kani::stub(konst_kernel::string::non_char_boundary_panic, crate::hlib::stub_non_char_boundary_panic)]
+    fn c14_trim_matches_both_ends_char_big(s) {
+        let hs = BStr::<4>::any(s);
+        let h = hs.as_str();
+        let p = mk(s, h);
+        let c = s.char();
+        chk!(s, rem_eq(p.trim_matches(c).remainder(), string::trim_matches(h, c)), "C14.trim_matches.eq_string_trim_matches");
+        cov!(s, c.len_utf8() == 2 && string::trim_matches(h, c).len() == 0 && h.len() == 4, "C14.cover.trim_matches_char2_two_reps_big");
+    }
+}
 
 harness! {
     /// kind=bounded tier=quick bound="valid UTF-8 remainder<=4 bytes, &str needle<=2 bytes (empty included); Parser::new or with_start_offset(<=1000)"
